@@ -50,8 +50,12 @@ func schedWorlds(quick bool) []schedWorld {
 	svcs := []wm.Svc{{NS: "ns1", Name: "s", Sel: map[string]string{"app": "b"}, Ports: []wm.SvcPort{{Name: "p1", Port: 80, Target: wm.TName("http")}, {Name: "p2", Port: 8080}}}, {NS: "ns1", Name: "sa", Sel: map[string]string{"app": "a"}, Ports: []wm.SvcPort{{Port: 80}}}}
 	ings := []wm.Ing{{NS: "ns1", Name: "i", Default: &wm.Backend{Svc: "s", PortNum: 80}, Rules: []wm.Backend{{Svc: "sa", PortNum: 80}}}}
 	routes := []wm.Route{{NS: "ns1", Name: "r", To: []string{"s", "sa"}}}
+	// selectors with several matchLabels, several named ports of one protocol, two ingress-controller lines
+	np4 := wm.NP{NS: "ns1", Name: "p4", PodSel: *wm.ML("app", "b"), Types: []string{"Ingress", "Egress"},
+		Ingress: []wm.NPRule{{Peers: []wm.NPPeer{{NSSel: wm.ML("team", "q", "env", "p", "zone", "z"), Pod: wm.ML("a", "b", "c", "d")}}, Ports: []wm.NPPort{{HasPort: true, Name: "web"}, {HasPort: true, Name: "http"}, {HasPort: true, Name: "admin"}, {HasPort: true, Name: "dns", Proto: "UDP"}}}},
+		Egress:  []wm.NPRule{{Peers: []wm.NPPeer{{NSSel: wm.ML("team", "q", "env", "p"), Pod: wm.ML("x", "y", "k", "l")}}, Ports: []wm.NPPort{{HasPort: true, Name: "web"}, {HasPort: true, Name: "http"}, {HasPort: true, Name: "zzz"}}}}}
 	ws := []*wm.World{
-		{NSs: nss, WLs: wls, NPs: []wm.NP{np1, np2, np3}},
+		{NSs: nss, WLs: wls, NPs: []wm.NP{np1, np2, np3, np4}},
 		{NSs: nss, WLs: wls[:3], NPs: []wm.NP{np1, np3}, ANPs: anps, BANP: banp},
 		{NSs: nss, WLs: wls[:3], NPs: []wm.NP{np2}, Svcs: svcs, Ings: ings, Routes: routes},
 	}
